@@ -4,6 +4,7 @@
   BankAccountWrapper / BankImpl code by the `wrapper` and `bank` families).
 -/
 import Mfi.Model.Bank
+import Mfi.Model.Ix
 import Mfi.Lemmas.FxL
 import Mfi.Lemmas.ResL
 import Mfi.Lemmas.BankL
@@ -223,6 +224,52 @@ theorem capacity_deposit_never_exceeds {b : Bank} {c d s : Int}
       · simp only [hspos, decide_false, Bool.false_and, Bool.false_eq_true, ↓reduceIte] at hfail
         cases hfail
 
+
+/-! ### instruction level (`Mfi/Model/Ix.lean`, diffed against the real `lending_account_deposit` by the `ixf` family) -/
+
+/-- **deposit_up_to_limit_amount**: a deposit flagged 'up to limit' books at most the amount asked for and at most the
+    remaining capacity of the bank AS ACCRUED to the current time; an unflagged deposit books exactly what was asked -/
+theorem deposit_up_to_limit_amount {b : Bank} {amount amt : Int} {up : Bool} (h : Ix.depositAmt b amount up = .ok amt) :
+    (up = true → ∃ cap, remainingDepositCapacity b = .ok cap ∧ amt = min amount cap ∧ amt ≤ amount ∧ amt ≤ cap) ∧
+    (up = false → amt = amount) := by
+  unfold Ix.depositAmt at h
+  constructor
+  · intro hu
+    simp only [hu, ↓reduceIte] at h
+    cases hc : remainingDepositCapacity b with
+    | error e => rw [hc] at h; cases h
+    | ok cap =>
+      rw [hc] at h
+      injection h with h
+      exact ⟨cap, rfl, h.symm, by omega, by omega⟩
+  · intro hu
+    simp only [hu, Bool.false_eq_true, ↓reduceIte] at h
+    injection h with h
+    exact h.symm
+
+/-- … and the whole instruction: whatever `lending_account_deposit(amount, up_to_limit = true)` does, the capacity it
+    clamps to is the one of the accrued bank, and a zero clamp is a successful no-op on positions -/
+theorem ix_deposit_up_to_limit {e : Ix.Env} {b b' : Bank} {bal x' : Option Balance} {amount t : Int}
+    (h : Ix.deposit e b bal amount true = .ok (b', x', t)) :
+    ∃ b1 cap, accrueInterest b e.ir e.now = .ok b1 ∧ remainingDepositCapacity b1 = .ok cap ∧
+      (min amount cap = 0 → b' = b1 ∧ x' = bal ∧ t = 0) ∧
+      (min amount cap ≠ 0 → Ix.depositCore e b1 bal (min amount cap) = .ok (b', x', t)) := by
+  unfold Ix.deposit at h
+  obtain ⟨b1, hb1, h⟩ := Res.bind_ok h
+  obtain ⟨amt, ha, h⟩ := Res.bind_ok h
+  obtain ⟨cap, hcap, hamt, _, _⟩ := (deposit_up_to_limit_amount ha).1 rfl
+  refine ⟨b1, cap, hb1, hcap, ?_, ?_⟩
+  · intro h0
+    rw [hamt, h0] at h
+    simp only [↓reduceIte] at h
+    injection h with h
+    injection h with e1 h
+    injection h with e2 e3
+    exact ⟨e1.symm, e2.symm, e3.symm⟩
+  · intro h0
+    rw [hamt] at h
+    simp only [h0, ↓reduceIte] at h
+    exact h
 
 open Mfi.Gen.Skel in
 /-- **capacity_after_accrual** (over the skeleton regenerated from deposit.rs): the remaining
